@@ -8,10 +8,27 @@ use crate::runrig::{mem_digest, RunRig};
 use crate::util::{Cfg, Report, Rng};
 use std::io::Read;
 
-fn utf8_text(rng: &mut Rng, nbytes: usize) -> Vec<u8> {
+pub fn utf8_text(rng: &mut Rng, nbytes: usize) -> Vec<u8> {
     let pool: [&str; 18] = ["\0", "\n", "\\", "\r", "\t", "\"", "a", "Z", " ", "~", "\u{e9}", "\u{7ff}", "\u{3042}", "\u{800}", "\u{fffd}", "\u{1F600}", "\u{10ffff}", "\\n"];
     let mut out = Vec::with_capacity(nbytes);
-    let style = rng.below(4);
+    let style = rng.below(7);
+    if style >= 4 && nbytes >= 2 {
+        // few newlines: exactly one at a random position, or very sparse ones (long newline-free tails)
+        let mut v: Vec<u8> = (0..nbytes).map(|_| 0x20 + rng.below(0x5f) as u8).collect();
+        match style {
+            4 => v[rng.below(nbytes as u64) as usize] = b'\n',
+            5 => v[rng.below((nbytes as u64 / 8).max(1)) as usize] = b'\n',
+            _ => {
+                for b in v.iter_mut() {
+                    if rng.chance(1, 1500) {
+                        *b = b'\n';
+                    }
+                }
+                v[0] = b'\n';
+            }
+        }
+        return v;
+    }
     while out.len() < nbytes {
         let left = nbytes - out.len();
         let s: String = match style {
@@ -63,15 +80,18 @@ fn call_group(c: &mut Child, seed: u64) {
         let ccr = rng.u8();
         if kind < 6 {
             // ---- write
-            let len = match rng.below(6) {
+            let len = match rng.below(7) {
                 0 => 0,
                 1 => 1,
                 2 => 4096,
                 3 => rng.below(16) as usize,
+                // beyond typical buffer sizes of the host side (pipes, line buffers, message chunks)
+                4 => *rng.pick(&[1023usize, 1024, 1025, 4095, 4097, 8191, 8192, 8193, 12288, 16384, 16385, 20000, 65536, 70001]),
+                5 => rng.below(20000) as usize,
                 _ => rng.below(4097) as usize,
             };
             let text = utf8_text(&mut rng, len);
-            let in_dram = rng.chance(1, 2);
+            let in_dram = len > 9000 || rng.chance(1, 2);
             let (lo, hi) = if in_dram { (0x440000u32, 0x5fffffu32) } else { (0xffc100u32, 0xffe7ffu32) };
             let buf = match rng.below(4) {
                 0 => hi + 1 - len as u32, // ends at the last byte
@@ -95,7 +115,7 @@ fn call_group(c: &mut Child, seed: u64) {
             let _ = rig.drain();
             let r = real_step(&mut rig.cpu);
             let msgs = rig.drain();
-            let class = [0u64, in_dram as u64, (len.min(4096) as u64 + 255) / 256, (buf + len as u32 == hi + 1) as u64];
+            let class = [0u64, in_dram as u64, if len <= 4096 { (len as u64 + 255) / 256 } else { 16 + (len as u64).min(80000) / 4096 }, (buf + len as u32 == hi + 1) as u64];
             c.rep.cell("write-region-len-end", &class);
             match r {
                 RealOutcome::Ok(_) => {
@@ -299,7 +319,7 @@ pub fn c14(rep: &mut Report, cfg: &Cfg) {
         }
         rep.cell("console-round", &[round, (expect.len() as u64).min(1 << 20) / 65536]);
     }
-    rep.notes.push("C14: groups of 1-50 TRAPA #0 calls executed by monitored steps in a child process whose stdout is a pipe. write: buffers in on-chip RAM and DRAM (including buffers ending at the last byte of a region), lengths 0-4096, valid UTF-8 with NUL/newline/backslash/CR and 2/3/4-byte characters; checks Ok, PC, all registers, CCR, digest of all five memory regions, exactly one stdout:<text> message, and the child's stdout equals the concatenation of all buffers byte for byte. set_handler: vectors 0-255 and beyond, boundary/random addresses; valid vectors are judged through a later injected interrupt, others must leave all memory unchanged. Other call numbers must fail. Cells: (region, length bucket, region end), vector classes, call-number classes, console rounds.".into());
+    rep.notes.push("C14: groups of 1-50 TRAPA #0 calls executed by monitored steps in a child process whose stdout is a pipe. write: buffers in on-chip RAM and DRAM (including buffers ending at the last byte of a region), lengths 0-70001 (dense up to 4096, around 1 Ki/4 Ki/8 Ki/16 Ki/64 Ki), few-newline texts with long newline-free tails, valid UTF-8 with NUL/newline/backslash/CR and 2/3/4-byte characters; checks Ok, PC, all registers, CCR, digest of all five memory regions, exactly one stdout:<text> message, and the child's stdout equals the concatenation of all buffers byte for byte. set_handler: vectors 0-255 and beyond, boundary/random addresses; valid vectors are judged through a later injected interrupt, others must leave all memory unchanged. Other call numbers must fail. Cells: (region, length bucket, region end), vector classes, call-number classes, console rounds.".into());
 }
 
 pub fn replay(line: &str) -> (bool, String) {
